@@ -334,3 +334,60 @@ pub fn long_key_family() -> Vec<(String, Vec<Kv>)> {
     }
     v
 }
+
+/// Mixed mid-size family: a FINITE, deterministic list of key sets between the
+/// exhaustive small scopes and the corpora (30..3000 keys; alphabets of 2..256
+/// bytes; key lengths 0..14; value widths from 0 to 8 bytes). Member i is a
+/// fixed function of i (a counter-based generator); it is a finite family,
+/// reported as such, not an enumeration of a space.
+pub fn mixed_family(count: usize) -> Vec<(String, Vec<Kv>)> {
+    let alphas: [usize; 7] = [2, 3, 5, 17, 40, 64, 256];
+    let sizes: [usize; 6] = [30, 60, 150, 400, 1200, 3000];
+    let lens: [usize; 5] = [2, 3, 5, 9, 14];
+    let mut out = vec![];
+    for i in 0..count {
+        let a = alphas[i % alphas.len()];
+        let n = sizes[(i / 7) % sizes.len()];
+        let l = lens[(i / 3) % lens.len()];
+        let vmode = (i / 2) % 6;
+        let mut keys: std::collections::BTreeSet<Key> = std::collections::BTreeSet::new();
+        let mut c = 0u64;
+        while keys.len() < n && c < (n as u64) * 20 {
+            let r = mix64((i as u64) << 32 | c);
+            c += 1;
+            let len = (r % (l as u64 + 1)) as usize;
+            let mut k = Vec::with_capacity(len);
+            let mut x = r >> 8;
+            for j in 0..len {
+                if j % 6 == 5 {
+                    x = mix64(x);
+                }
+                // skewed choice: low symbols are more frequent (shared prefixes)
+                let sym = ((x & 0xff) as usize * ((x >> 8 & 0xff) as usize + 1) / 256) % a;
+                x >>= 9;
+                let byte = if a == 256 { sym as u8 } else { [b'a', b'b', b'e', 0x00, 0xff, b'W', b'/', b'z'][sym % 8].wrapping_add((sym / 8) as u8 * 3) };
+                k.push(byte);
+            }
+            keys.insert(k);
+        }
+        let keys: Vec<Key> = keys.into_iter().collect();
+        let kvs: Vec<Kv> = keys
+            .iter()
+            .enumerate()
+            .map(|(j, k)| {
+                let r = mix64((i as u64) * 1_000_003 + j as u64);
+                let v = match vmode {
+                    0 => 0,
+                    1 => j as u64,
+                    2 => r % 7,
+                    3 => BOUNDARY_VALUES[(r % 15) as usize],
+                    4 => r >> (8 * (r % 8)),
+                    _ => (j as u64) * 1000 + r % 1000, // strictly increasing
+                };
+                (k.clone(), v)
+            })
+            .collect();
+        out.push((format!("mixed-{}-a{}-n{}-l{}-v{}", i, a, kvs.len(), l, vmode), kvs));
+    }
+    out
+}
